@@ -30,6 +30,8 @@ func runC12(c *Ctx) {
 		recoverBoundary(c, "R1", e)
 	}
 	parseGuards(c, "R2")
+	tokenCharsGuarded(c, "R2")
+	paddingLengthFromHasher(c, "R3")
 	decodedAnswers(c, "R3")
 	verifierTermination(c, "R4")
 	dv := p.MustMethod(pkgBalloon, "MembershipProof", "DigestVerify")
